@@ -1,6 +1,6 @@
 (* C05 — graceful shutdown and restart lose nothing.  Property theorems only. *)
 From Coq Require Import List NArith ZArith Permutation.
-From NSQV Require Import model.Core proofs.CoreBase proofs.CoreLife.
+From NSQV Require Import model.Core proofs.CoreBase proofs.CoreLife proofs.CoreOwes proofs.CoreRestart.
 Import ListNotations.
 Open Scope N_scope.
 
@@ -34,6 +34,29 @@ Theorem C05_no_ephemeral : forall s,
   Forall (fun tp => t_eph tp = false /\ Forall (fun ch => c_eph ch = false) (t_chans tp)) (s_topics (restart s)).
 Proof. exact restart_no_ephemeral. Qed.
 Print Assumptions C05_no_ephemeral.
+
+(* OVER HISTORIES: take any state in which the durable channel (t,c) exists, publish a batch
+   containing x to topic t, then let ANY history follow in which operations of every kind
+   (short of deleting that channel / topic or emptying the topic's own queue) are interleaved
+   with ANY number of graceful Exit + restart cycles at arbitrary points: x is still
+   accounted for on the channel (queued, in flight, deferred, finished or explicitly
+   emptied) or waits in the topic's queue; nothing is lost by a shutdown *)
+Theorem C05_no_loss_across_restarts : forall cfg t c x s teph ids bytes defer now hs,
+  channel_exists t c s -> In x ids -> forallb (hkeeps t c) hs = true ->
+  J t c x (hrun cfg (fst (step cfg s (OPub t teph ids bytes defer now))) hs).
+Proof. exact no_loss_across_restarts. Qed.
+Print Assumptions C05_no_loss_across_restarts.
+
+Theorem C05_restart_keeps_tracking : forall t c x s, J t c x s -> J t c x (restart s).
+Proof. exact restart_J. Qed.
+Print Assumptions C05_restart_keeps_tracking.
+
+(* ... and right after the restart whatever was unfinished waits in the channel's queue *)
+Theorem C05_unfinished_requeued : forall ch x,
+  In x (map m_id (c_queue ch) ++ map (fun e => m_id (i_msg e)) (c_ifl ch) ++ map (fun e => m_id (d_msg e)) (c_dfr ch)) ->
+  In x (map m_id (c_queue (restart_chan ch))).
+Proof. exact restart_queue_has. Qed.
+Print Assumptions C05_unfinished_requeued.
 
 (* any number of Exit/Restart cycles *)
 Theorem C05_cycles : forall ch, c_queue (restart_chan (restart_chan ch)) = c_queue (restart_chan ch).
